@@ -32,6 +32,21 @@ class C07:
     def elem_paths(self, s: Summary, t) -> Optional[Tuple[str, tuple, str]]:
         """Classify t as ('index'|'item', sequence term, loop id) when it is the index / element of enumerate(seq)
         reached through a for-loop (possibly over itertools.product of enumerations)."""
+        # for i in range(len(seq)): i is the index, seq[i] the item
+        def range_len(lid):
+            it = s.loops[lid].iter if lid in s.loops else None
+            if it is not None and it[0] == "call" and it[1] == ("builtin", "range") and not it[3] and not s.loops[lid].conds:
+                a = it[2]
+                if len(a) == 2 and a[0] == ("const", 0):
+                    a = a[1:]
+                if len(a) == 1 and a[0][0] == "call" and a[0][1] == ("builtin", "len") and len(a[0][2]) == 1:
+                    return a[0][2][0]
+            return None
+
+        if t[0] == "elem" and range_len(t[1]) is not None:
+            return ("index", range_len(t[1]), t[1])
+        if t[0] == "sub" and t[2][0] == "elem" and range_len(t[2][1]) == t[1]:
+            return ("item", t[1], t[2][1])
         # strip projections
         path = []
         x = t
@@ -88,7 +103,7 @@ class C07:
         i, j = self.elem_paths(s, idx[0]), self.elem_paths(s, idx[1]) if len(idx) == 2 else None
         a, b = self.elem_paths(s, bound.get(asum.params[0], NONE)), self.elem_paths(s, bound.get(asum.params[1], NONE))
         good = (i and j and a and b and i[0] == "index" and j[0] == "index" and a[0] == "item" and b[0] == "item"
-                and i[1] == src and j[1] == tgt and a[1] == src and b[1] == tgt)
+                and i[1] == src and j[1] == tgt and a[1] == src and b[1] == tgt and i[2] == a[2] and j[2] == b[2])
         if good:
             ctx.ok("R07.1", f"{self.file}:{st.lineno} match_geometries", "cell [i, j] = compute_affinity(source[i], target[j])")
         else:
